@@ -388,25 +388,68 @@ TQ_RULES = [
     Sub(r"\bthis\b", "self", None),
 ]
 
+# MiniSat (CBMC's default back end) does not terminate on some FAILING variants of these two units (seen with mutants: it
+# hangs inside the propositional reduction of a 55k-variable instance); CaDiCaL decides the same instances in < 1 s.
+CADICAL = ["--sat-solver", "cadical"]
+
+QHT = "libs/pika/schedulers/include/pika/schedulers/queue_holder_thread.hpp"
+QHT_RULES = [
+    Sub(r"\btid\b", "thrd", None),                                        # parameter spelling of queue_holder_thread
+    DropStmt(r"::pika::detail::tq_deb\.debug", None),                     # debug print
+    Sub(r"(?:pika::)?execution::thread_stacksize::(\w+)", r"thread_stacksize_\1", None),
+    Sub(r"\b(thread_heap_\w+_)\.push_front\(", r"heap_push_front(&\1, ", None),
+    Sub(r"\b(\w+)->(front|pop_front)\(\)", r"heap_\2(\1)", None),
+]
+
+
+def heap_lifts(src, extra):
+    rules = extra + TQ_RULES
+    return {"recycle_thread": Lift(src, r"void recycle_thread\(threads::detail::thread_id_type (?:thrd|tid)\)", rules=rules + [
+                Members(TQ_MEMBERS, optional=TQ_MEMBERS)]),
+            "create_thread_object": Lift(src, r"void create_thread_object\(\s*threads::detail::thread_id_ref_type& (?:thrd|tid),", rules=rules + [
+                Sub(r"(?<![\w.>&*])thrd\b", "(*thrd)", None), Members(TQ_MEMBERS, optional=TQ_MEMBERS)])}
+
+
+for (pref, src, cls, defs, extra) in [("heap", TQ, "thread_queue", [], []), ("heap.qht", QHT, "queue_holder_thread", ["QHT"], QHT_RULES)]:
+    UNITS += [
+        Unit(pref + ".recycle_thread", "heap.c", defines=["U_RECYCLE"] + defs, enforce="recycle_thread", lifts=heap_lifts(src, extra),
+             funcs=[src + ": %s::recycle_thread" % cls],
+             doc="T: a terminated object of a configured stack size is pushed onto exactly one of the queue's free lists, once; all "
+                 "configurations of the five sizes", min_obligations=10, solver=CADICAL),
+        Unit(pref + ".create_after_recycle", "heap.c", defines=["U_CREATE"] + defs, enforce="create_thread_object", lifts=heap_lifts(src, extra),
+             funcs=[src + ": %s::create_thread_object, %s::recycle_thread" % (cls, cls)],
+             doc="F/T over two lifted bodies: for one symbolic victim object put on a free list by recycle_thread and one symbolic "
+                 "requested size: same size => create_thread_object consults the very list the victim is on; the victim is handed "
+                 "out only for its own stack size; exactly one object (rebound and popped, or new with the requested size) is handed "
+                 "out; all configurations of the five sizes including equal ones", min_obligations=30, solver=CADICAL),
+    ]
+
+# ---------------------------------------------------------------------------------------------------------------
+# unit group 3c: thread_data_stackful glue (constructor vs rebind)
+
+TDS = "libs/pika/threading_base/include/pika/threading_base/thread_data_stackful.hpp"
+TDS_RULES = [
+    Sub(r"\binit_data\.", "init_data->", None),
+    Sub(r"\bthread_id_type\(", "thread_id_make(", None),
+    Sub(r"\bthis_\(\)", "this_(self)", None),
+    Sub(r"\bthis->thread_data::rebind_base\(", "thread_data_rebind_base(self, ", None),
+    Sub(r"\bcoroutine_\.rebind\(", "coroutine_rebind(&self->coroutine_, ", None),
+    Sub(r"\bcoroutine_\.is_ready\(\)", "coroutine_is_ready(&self->coroutine_)", None),
+    Sub(r"\bcoroutine_\.impl\(\)", "coroutine_impl_of(&self->coroutine_)", None),
+    Sub(r"\bthis\b", "self", None),
+]
 UNITS += [
-    Unit("heap.recycle_thread", "heap.c", defines=["U_RECYCLE"], enforce="recycle_thread",
-         lifts={"recycle_thread": Lift(TQ, r"void recycle_thread\(threads::detail::thread_id_type thrd\)", rules=TQ_RULES + [
-                    Members(TQ_MEMBERS, optional=TQ_MEMBERS)]),
-                "create_thread_object": Lift(TQ, r"void create_thread_object\(threads::detail::thread_id_ref_type& thrd,", rules=TQ_RULES + [
-                    Sub(r"(?<![\w.>&*])thrd\b", "(*thrd)", None), Members(TQ_MEMBERS, optional=TQ_MEMBERS)])},
-         funcs=[TQ + ": thread_queue::recycle_thread"],
-         doc="T: a terminated object of a configured stack size is pushed onto exactly one of the queue's free lists, once; all "
-             "configurations of the five sizes", min_obligations=10),
-    Unit("heap.create_after_recycle", "heap.c", defines=["U_CREATE"], enforce="create_thread_object",
-         lifts={"recycle_thread": Lift(TQ, r"void recycle_thread\(threads::detail::thread_id_type thrd\)", rules=TQ_RULES + [
-                    Members(TQ_MEMBERS, optional=TQ_MEMBERS)]),
-                "create_thread_object": Lift(TQ, r"void create_thread_object\(threads::detail::thread_id_ref_type& thrd,", rules=TQ_RULES + [
-                    Sub(r"(?<![\w.>&*])thrd\b", "(*thrd)", None), Members(TQ_MEMBERS, optional=TQ_MEMBERS)])},
-         funcs=[TQ + ": thread_queue::create_thread_object, thread_queue::recycle_thread"],
-         doc="F/T over two lifted bodies: for one symbolic victim object put on a free list by recycle_thread and one symbolic "
-             "requested size: same size => create_thread_object consults the very list the victim is on; the victim is handed "
-             "out only for its own stack size; exactly one object (rebound and popped, or new with the requested size) is handed "
-             "out; all configurations of the five sizes including equal ones", min_obligations=30),
+    Unit("recycle.stackful_rebind", "glue.c", enforce="tds_rebind", lifts={
+        "this_": Lift(TDS, r"thread_data\* this_\(\)", rules=TDS_RULES),
+        "ctor": Lift(TDS, r"thread_data_stackful\(thread_init_data& init_data, void\* queue, std::ptrdiff_t stacksize,\s*thread_id_addref addref\)",
+                     fragment_end=r"\}(?=\s*~thread_data_stackful\(\);)", rules=TDS_RULES + [
+            CtorInit(["coroutine_", "agent_"], bases={"thread_data": "thread_data_ctor(self, {args});"},
+                     ctors={"coroutine_": "coroutine_ctor({args})", "agent_": "agent_ctor({args})"})]),
+        "rebind": Lift(TDS, r"void rebind\(thread_init_data& init_data\) override", rules=TDS_RULES)},
+        funcs=[TDS + ": threads::detail::thread_data_stackful::rebind, thread_data_stackful (constructor), this_"],
+        doc="T: rebind resets the thread_data part and the coroutine part once each and gives the coroutine the "
+            "object's own identity, exactly as the constructor does; the constructor passes the requested stack size to the coroutine",
+        min_obligations=15),
 ]
 
 META = {
@@ -415,17 +458,49 @@ META = {
         "and otherwise returns a fresh region of exactly len bytes (modelled as a fresh object; disjointness of distinct mappings "
         "is the kernel's); vx_mprotect/vx_madvise/vx_munmap record (address, length) and may fail",
         "EXEC_PAGESIZE of the build platform (<sys/param.h>, 4096) -- the same header posix_utility.hpp reads",
-        "make_stack(): harness input domain of the units that start from an existing stack = an object of exactly `size` bytes, "
-        "size a positive page multiple <= 2^47",
+        "specs/C12/stack.c make_stack(): harness input domain of the units that start from an existing stack = an object of exactly "
+        "`size` bytes, size a positive page multiple <= 2^47 (two VX_ASSUMEs in the harness helper)",
+        "specs/C12/stack.c lemma harnesses (no contract to carry a precondition): stack.guard_roundtrip VX_ASSUME(one page of room on "
+        "the side the conversion moves to, object <= 2^47), stack.alloc_free VX_ASSUME(size <= PTRDIFF_MAX), ctx.init_dtor "
+        "VX_ASSUME(stack_size >= -1) -- the ranges for which the overflow checks are claimed",
+        "specs/C12/stack.c harness of ctx.rebind_stack: VX_ASSUME(!vx_exc) after the lifted init() (input domain: contexts whose "
+        "init succeeded)",
+        "specs/C12/heap.c: the five free lists (std::vector / std::list of thread ids) abstracted to 'what is on top' with one "
+        "symbolic victim object; thread_data::rebind, thread_data_stackful/stackless::create, get_stack_size, "
+        "scheduler_base::get_stack_size are recording stubs; VX_ASSUME: the victim has one of the configured sizes (objects are "
+        "created by this queue with scheduler_base::get_stack_size(class), the same thread_queue_init_parameters)",
+        "specs/C12/recycle.c: std::forward_list<function> abstracted to its length, spinlock_pool lock to a held bit, "
+        "thread_state(state, state_ex) constructor to a struct with tag 0 (packing: C01); harness VX_ASSUME: init_data.stacksize != "
+        "current (the constructor's own PIKA_ASSERT: the scheduler resolves `current` before)",
+        "specs/C12/tramp.c functor_call: the user's thread function as a nondeterministic stub (may set task-local data, may throw, "
+        "returns (terminated, next) -- `terminated` is what the thread_function wrapper guarantees); swap_context_yield: the assembly "
+        "context switch back to the scheduler, modelled as 'obligations asserted; the only way back in is rebind (lifted) + "
+        "bind_args/do_invoke (lifted)'; x86_linux_context_impl::reset_stack / rebind_stack as counting stubs (contracts: ctx.* units)",
+        "specs/C12/glue.c: thread_data base constructor / rebind_base and coroutine constructor / rebind as recording stubs (their "
+        "own units: recycle.rebind_base, recycle.trampoline)",
     ],
     "assumptions": [
         "posix::use_guard_pages does not change between alloc_stack and free_stack of one stack (it is written once in init_runtime)",
-        "C++ exceptions are lowered to a flag + early return; destructors of locals on those paths are trivial in the lifted functions",
+        "C++ exceptions are lowered to a flag + early return (stack units) / a jump to the handler (trampoline); destructors of "
+        "locals on those paths are trivial in the lifted functions except reset_self_on_exit, which is lowered as a scope guard",
+        "stack sizes for which 'no arithmetic overflow' is claimed: 1 .. PTRDIFF_MAX (every positive value a std::ptrdiff_t "
+        "configuration entry can hold); for all other size_t values (negative configured sizes converted to size_t) the *.anysize "
+        "units show with wrap-around semantics that no stack is handed out (check_stack_size or the kernel refuses)",
+        "rebind_base precondition: the previous task ran its exit callbacks (exit_funcs_ empty or ran_exit_funcs_; C13) and "
+        "stacksize_ != 0 (the two PIKA_ASSERTs of rebind_base / free_thread_exit_callbacks are obligations under it)",
+        "mem-initialiser lists are lifted in the order written (= declaration order in the lifted constructors; no initialiser reads "
+        "another member)",
+        "heap units use CaDiCaL (cbmc --sat-solver cadical): MiniSat hangs on failing variants of these instances",
     ],
     "not_decided": [
         "register / FP state and stack CONTENTS across swapcontext_stack (inline assembly in context_linux_x86.hpp and the .S file): no C semantics",
         "that the 12-word frame laid out by init()/rebind_stack() is what the assembly pops (layout constants are taken as declared)",
         "disjointness of two different mmap results (kernel)", "identity of a task across migration between workers",
         "context_generic_context.hpp (Boost.Context) and context_posix.hpp (ucontext): not active in this build",
+        "context_base::continuation_recursion_count_: set to 0 by the constructor, neither reset nor asserted by rebind/trampoline "
+        "(reach marker continuation_recursion_count_inherited); no pika code writes it at this commit, it is reachable only through "
+        "the reference returned by get_continuation_recursion_count()",
+        "thread_data_stackless (tasks without a stack) and the reference count of a recycled thread_data",
+        "the mapping leaked when mprotect fails after a successful mmap in alloc_stack (error path, not part of the property)",
     ],
 }
